@@ -95,7 +95,7 @@ def _state_task(idx):
             env.update({"LSPVERIF_PYPKG": os.path.join(work, "pkg"), "LSPVERIF_MODEL": mp_, "PYTHONPATH": VERIF, "PYTHONHASHSEED": "0",
                         "PYTHONDONTWRITEBYTECODE": "1"})
             outp = os.path.join(work, "state.json")
-            pr = subprocess.run([PY, "-m", "lspverif.evo_state", _G["base_path"], _G["base_names"], outp, "2" if thorough else "1"],
+            pr = subprocess.run([PY, "-m", "lspverif.evo_state", _G["base_path"], _G["base_names"], outp, "3" if thorough else "2"],
                                 cwd=VERIF, env=env, capture_output=True, text=True, timeout=1800)
             if pr.returncode != 0 or not os.path.exists(outp):
                 add("C06", "C06:state-evaluation-crashed", "evaluation subprocess failed: %s" % (pr.stderr or pr.stdout)[-400:])
@@ -188,7 +188,7 @@ def run(ctx):
                 "plus %d dependent depth-2 sequences; states de-duplicated on the canonical JSON hash; per state: schema validity of the document, "
                 "python/rust/dotnet plugins through the real CLI, testdata generate() in-process, import of the emitted module with the unchanged "
                 "runtime files in a fresh interpreter, BISIM C04/C09/C07/C08 for the evolved model, VSE (C01 C02 C03 C10, k<=%d) on the affected "
-                "region, C17 on every new or changed vector" % ("full" if ctx.thorough else "representative", len(d2) if ctx.thorough else 3, 2 if ctx.thorough else 1),
+                "region, C17 on every new or changed vector" % ("full" if ctx.thorough else "representative", len(d2) if ctx.thorough else 3, 3 if ctx.thorough else 2),
         **tot, "violations_inherited_from_known_findings_of_the_base": inherited,
         "per_state": per_state, "exhaustive": True, "samples": samples,
     }
